@@ -44,8 +44,19 @@ def level_thresholds(sp, rules):
     return thr
 
 
-def compare(sp, rules, ref, other, what='second run'):
-    """-> None | ('inconclusive', reason) | ('fail', bucket, detail, t)   (rows on the hydraulic grid)"""
+def pipe_K(l):
+    """Hazen-Williams resistance of a pipe of the spec (SI), own constant 10.667"""
+    return 10.667 * l['len'] / (l['C'] ** 1.852 * l['diam'] ** 4.871)
+
+
+def compare(sp, rules, ref, other, what='second run', noise=None):
+    """-> None | ('inconclusive', reason) | ('fail', bucket, detail, t)   (rows on the hydraulic grid)
+
+    noise: a re-execution of the reference model with a slightly tighter solver tolerance.  What two executions of one
+    and the same model differ by is not a property of restarting/resetting: the deviation |ref - noise| seen so far
+    (times 4) is added to every tolerance, and a status that already differs between ref and noise is not judged.
+    Trajectories with tanks chattering at a limit amplify a one-second shift of an event exponentially; this term is
+    what keeps the comparison sound there, while well-conditioned cases keep the tight tolerances."""
     hyd = sp['opts']['hyd']
     rt = [int(t) for t in ref.times]
     ot = [int(t) for t in other.times]
@@ -59,6 +70,13 @@ def compare(sp, rules, ref, other, what='second run'):
                 % (what, missing, extra), grid[0] if grid else 0)
     if not grid:
         return None
+    # recorded open finding of C02: an open constant-power pump can settle on a spurious negative-flow root; the
+    # hydraulic solution is then not unique and two executions may land on different roots
+    for pmp in sp['pumps']:
+        if pmp['type'] == 'POWER':
+            for run_ in (ref, other):
+                if float(np.min(run_.link['flowrate'][pmp['name']])) < -3e-6:
+                    return ('inconclusive', 'a power pump runs in reverse (open finding of C02): the solution is not unique')
     nev = np.array([sum(1 for t in rt if t <= T and t % hyd != 0) for T in grid], dtype=float)
     ri = np.array(gi, dtype=int)
     oi = np.array(go, dtype=int)
@@ -67,6 +85,7 @@ def compare(sp, rules, ref, other, what='second run'):
     for tn, tk in tanks.items():
         band = max(band, 2.0 * float(np.max(np.abs(ref.node['demand'][tn]))) / S.tank_area(tk))
     thr = level_thresholds(sp, rules)
+    pipes = dict((l['name'], l) for l in sp['pipes'])
 
     def near_threshold(k):
         for tn, tk in tanks.items():
@@ -86,11 +105,34 @@ def compare(sp, rules, ref, other, what='second run'):
         bad = np.nonzero(s1 != s2)[0]
         if len(bad):
             k = int(bad[0])
+            if nstat is not None and k >= nstat:
+                return ('inconclusive', 'statuses of the reference run are not reproducible under a solver-tolerance perturbation')
             if near_threshold(k) or (k + 1 < len(grid) and near_threshold(k + 1)):
                 return ('inconclusive', 'status differs where a tank level is within the event-time band of a threshold')
             return ('fail', 'status/%s' % kind, 't=%d s link %s: status %s in the reference run vs %s in the %s'
                     % (grid[k], name, s1[k], s2[k], what), grid[k])
     hband = band * (1.0 + nev)
+    ndev = {}
+    nstat = None
+    if noise is not None:
+        nt = [int(t) for t in noise.times]
+        gn = [i for i, t in enumerate(nt) if t % hyd == 0]
+        if [nt[i] for i in gn] != grid:
+            return ('inconclusive', 'the reference run is not reproducible under a solver-tolerance perturbation (grid differs)')
+        ni = np.array(gn, dtype=int)
+        for kind_, keys in (('node', ('head', 'demand', 'leak_demand')), ('link', ('flowrate',))):
+            for key in keys:
+                tab = getattr(ref, kind_)[key]
+                dev = np.zeros(len(grid))
+                for name in tab:
+                    dev = np.maximum(dev, np.abs(tab[name][ri] - getattr(noise, kind_)[key][name][ni]))
+                ndev[key] = np.maximum.accumulate(dev)
+        first_bad = len(grid)
+        for name in ref.link['status']:
+            bad = np.nonzero(ref.link['status'][name][ri] != noise.link['status'][name][ni])[0]
+            if len(bad):
+                first_bad = min(first_bad, int(bad[0]))
+        nstat = first_bad
     for kind_, keys, names in (('node', ('head', 'demand', 'leak_demand'), S.node_names(sp)),
                                ('link', ('flowrate',), [l[0] for l in S.links_of(sp)])):
         for key in keys:
@@ -100,7 +142,18 @@ def compare(sp, rules, ref, other, what='second run'):
                 if key == 'head':
                     tol = 1e-4 + hband + 1e-5 * np.abs(v1)
                 else:
-                    tol = 1e-6 + 1e-5 * np.abs(v1) + np.minimum(1.0, 5.0 * hband) * float(np.max(np.abs(v1))) * 0.1
+                    # 3e-6: flows within the flow tolerance (2.83e-6) count as no flow in either run
+                    tol = 3e-6 + 1e-5 * np.abs(v1) + np.minimum(1.0, 5.0 * hband) * float(np.max(np.abs(v1))) * 0.1
+                    if key == 'flowrate' and name in pipes:
+                        # a pipe flow follows the heads of its ends: heads that agree within the head tolerance leave
+                        # the flow of a low-resistance pipe undetermined by q(|dh| + 2 tol_h) - q(|dh|)
+                        l = pipes[name]
+                        dh = np.abs(ref.node['head'][l['a']][ri] - ref.node['head'][l['b']][ri])
+                        th = 2.0 * (1e-4 + hband) + 4.0 * ndev.get('head', 0.0)
+                        K = pipe_K(l)
+                        tol = tol + ((dh + th) / K) ** 0.54 - (dh / K) ** 0.54
+                if key in ndev:
+                    tol = tol + 4.0 * ndev[key]
                 d = np.abs(v1 - v2)
                 bad = np.nonzero(~(d <= tol))[0]
                 if len(bad):
